@@ -142,7 +142,14 @@ fn rand_value(rng: &mut Rng, depth: usize, key: bool) -> SValue {
                     }
                     2 if depth > 1 => {
                         let n = 1 + rng.below(2);
-                        SValue::new("Struct", "", (0..n).map(|j| SValue::leaf("I", &(i + 1 + 10 * j).to_string())).collect())
+                        let fields: Vec<SValue> = (0..n).map(|j| SValue::leaf("I", &(i + 1 + 10 * j).to_string())).collect();
+                        // a struct, or an enum variant with a payload, in key position
+                        match rng.below(4) {
+                            0 => SValue::new("NV", "", vec![fields[0].clone()]),
+                            1 => SValue::new("TV", "", vec![fields[0].clone(), SValue::leaf("I", &(i + 40).to_string())]),
+                            2 => SValue::new("SV", "", vec![fields[0].clone()]),
+                            _ => SValue::new("Struct", "", fields),
+                        }
                     }
                     _ => SValue::leaf("S", keys[i]),
                 };
